@@ -571,6 +571,25 @@ class Interp:
                 if st.cons.entails_le(bu, au) and st.cons.entails_le(au, bu * 2 - 1):
                     return IntVal(w, au - bu, None)
             return r
+        if op in ('sdiv', 'srem') and b.sconst() is not None and b.sconst() > 0:
+            as_ = st.as_s(a)
+            k = b.sconst()
+            if as_ is not None and (st.cons.entails_le(0, as_) or st.cons.entails_le(as_, 0)):
+                nonneg = st.cons.entails_le(0, as_)
+                mk = ('sdivrem', w, as_.key(), k, nonneg)
+                q = st.conv.get(mk)
+                if q is None:
+                    q = st.fresh_int(w, True, 'squot').s
+                    if nonneg:
+                        st.cons.add_le(q * k, as_)
+                        st.cons.add_le(as_, q * k + (k - 1))
+                    else:
+                        st.cons.add_le(as_, q * k)
+                        st.cons.add_le(q * k - (k - 1), as_)
+                    st.conv[mk] = q
+                if op == 'sdiv':
+                    return IntVal(w, None, q)
+                return IntVal(w, None, as_ - q * k)
         if op in ('sdiv', 'srem', 'ashr'):
             as_, bs = st.as_s(a), st.as_s(b)
             if op == 'ashr':
@@ -1205,6 +1224,23 @@ class Interp:
         op = i.op
         env = st.env
         key = ('i', i.id)
+        if op in ('sdiv', 'srem') and i.bits > 1:
+            a = self.val(st, i.ops[0], fn)
+            b = self.val(st, i.ops[1], fn)
+            if isinstance(a, IntVal) and isinstance(b, IntVal) and b.sconst() is not None and b.sconst() > 0 \
+                    and a.const() is None:
+                as_ = st.as_s(a)
+                if as_ is not None and not st.cons.entails_le(0, as_) and not st.cons.entails_le(as_, -1):
+                    # C division truncates toward zero: case split on the sign of the dividend
+                    s2 = st.fork()
+                    st.cons.add_le(0, as_)
+                    s2.cons.add_le(as_, -1)
+                    out = []
+                    for s in (st, s2):
+                        if not self.infeasible(s, as_, Lin(0)):
+                            s.env[key] = self.binop(s, op, a, b, i)
+                            out.append(s)
+                    return out
         if op in ('add', 'sub', 'mul', 'udiv', 'sdiv', 'urem', 'srem', 'shl',
                   'lshr', 'ashr', 'and', 'or', 'xor'):
             a = self.val(st, i.ops[0], fn)
@@ -1619,6 +1655,15 @@ class Interp:
                 # integer (stride = pointee size, so that p != end over
                 # elements is exact integer reasoning)
                 stride = ph.ty.get('elemsize') or 1
+                # a cursor advanced by a constant number of elements per iteration (it += 2)
+                for (bb, v) in ph.incoming:
+                    if fn.bmap[bb] in L['blocks'] and v.k == 'inst':
+                        g = fn.insts[v.id]
+                        if g.op == 'getelementptr' and g.ops[0].k == 'inst' and g.ops[0].id == ph.id:
+                            st_ = g.d['gep']['steps']
+                            if len(st_) == 1 and st_[0]['k'] == 'index' and st_[0]['v']['k'] == 'ci' and \
+                                    st_[0]['v']['v'] not in (0,):
+                                stride = abs(st_[0]['stride'] * st_[0]['v']['v'])
                 if signs.get(('pstride', ph.id)):
                     stride = 1
                 x = H.fresh_int(64, True, 'pidx_' + hint)
@@ -1810,6 +1855,8 @@ class Interp:
                     pairs += [(1, -2), (1, -4), (1, -8), (1, 2), (1, 4), (1, 8)]
                 if pb and not pa:
                     pairs += [(-2, 1), (-4, 1), (-8, 1), (2, 1), (4, 1), (8, 1)]
+                if pa and pb:
+                    pairs += [(1, -2), (2, -1)]
                 for ka, kb in pairs:
                     e = xa * ka + xb * kb - (ia * ka + ib * kb)
                     add(e)
